@@ -1,6 +1,7 @@
 import Gv.Oracle.Common
 import Gv.Spec.Fmt
 import Gv.Model.Fmt.Fasta
+import Gv.Gen.FmtFacts
 /-!
 Oracle handlers for the alignment formats (C02 round trips, C03 parser outcomes).
 
@@ -84,7 +85,7 @@ def liftOutcome : Outcome Aln → PRes
 def modelParse (fmt : String) (o : POpts) (bs : List Byte) : Option PRes :=
   if !allAscii bs then none else
   match fmt with
-  | "fasta" => some (liftOutcome (Fasta.parse false o bs))
+  | "fasta" => some (liftOutcome (Fasta.parse Gen.FmtFacts.fasta_rejects_empty o bs))
   | _ => none
 
 /-- what `buildAlign` of the harness does: AddSequence one by one under IGNORE_NONE -/
